@@ -152,6 +152,7 @@ def run(ctx):
             ctx.fail("C17:%s:import" % o["isa"], "ISA module %s no longer imports: %s" % (o["isa"], o["import_error"]), None)
             continue
         syn["%s/%s" % (o["isa"], o["mode"])] = o["syntaxes"]
+        ctx.count("inputs_skipped_after_two_timeouts_of_the_same_spec", o.get("skipped_after_timeouts", 0))
         for tr in o["traces"]:
             tr["t"] = len(traces) + 1
             tr["maxlen"] = 0
